@@ -21,8 +21,58 @@ def contexts(x):
             F.call('SUM', one, F.call('ABS', x)), F.arr(one, x)]
 
 
+_M = object()
+
+
+def shaped(kind, fn):
+    """the same host function as another kind of Python callable (what set_function may be given)"""
+    if kind == 'closure':
+        return fn
+    if kind == 'lambda':
+        return lambda *a: fn(*a)
+    if kind == 'method':            # bound method, one optional parameter
+        class Host(object):
+            def m(self, a=_M, b=_M, c=_M):
+                return fn(*[x for x in (a, b, c) if x is not _M])
+        return Host().m
+    if kind == 'method2':           # bound method taking exactly two arguments
+        class Host2(object):
+            def m(self, a, b):
+                return fn(a, b)
+        return Host2().m
+    if kind == 'classmethod':
+        class HostC(object):
+            @classmethod
+            def m(cls, a=_M, b=_M, c=_M):
+                return fn(*[x for x in (a, b, c) if x is not _M])
+        return HostC.m
+    if kind == 'staticmethod':
+        class HostS(object):
+            @staticmethod
+            def m(a=_M, b=_M, c=_M):
+                return fn(*[x for x in (a, b, c) if x is not _M])
+        return HostS.m
+    if kind == 'partial':
+        import functools
+        return functools.partial(lambda tag, *a: fn(*a), 'tag')
+    if kind == 'object':
+        class Callable(object):
+            def __call__(self, *a):
+                return fn(*a)
+        return Callable()
+    if kind == 'defaults':
+        def with_defaults(a=_M, b=_M, c=_M):
+            return fn(*[x for x in (a, b, c) if x is not _M])
+        return with_defaults
+    raise ValueError(kind)
+
+
+SHAPES = ['closure', 'method', 'lambda', 'classmethod', 'partial', 'staticmethod', 'object', 'defaults']
+
+
 class Hist(object):
     def __init__(self, lib, tid, case):
+        self.nfn = 0
         self.lib = lib
         self.tid = tid
         self.case = case
@@ -38,10 +88,12 @@ class Hist(object):
         self.parser(p).p.set_variable(name, dec(v))
         self.ev.append({'e': 'setvar', 'p': p, 'name': name, 'v': v})
 
-    def setfn(self, p, name, c):
+    def setfn(self, p, name, c, shape=None):
         h = self.parser(p)
-        h.p.set_function(name, h.custom(name, c))
-        self.ev.append({'e': 'setfn', 'p': p, 'name': name, 'c': c})
+        self.nfn += 1
+        kind = shape or SHAPES[self.nfn % len(SHAPES)]
+        h.p.set_function(name, shaped(kind, h.custom(name, c)))
+        self.ev.append({'e': 'setfn', 'p': p, 'name': name, 'c': c, 'callable': kind})
 
     def parse(self, p, ast, checks=CHECKS):
         text = F.render(ast)
@@ -172,6 +224,22 @@ def resolve_trace(lib, names, tid):
     return {'tid': tid, 'ev': ev, 'case': {'resolve_all_documented_names': len(names)}}
 
 
+def shadow_trace(lib, names, tid):
+    """every documented name shadowed by a custom function, called with 0, 1 and 2 arguments: the custom function
+    is the one that is called, once, and its value is the call's value"""
+    h = Hist(lib, tid, {'shadow_all_documented_names': len(names)})
+    for i, name in enumerate(names):
+        h.setfn('p1', name, {'mode': 'const', 'v': enc(100000 + i), 'i': 0})
+    for i, name in enumerate(names):
+        h.parse('p1', F.call(name))
+        h.parse('p1', F.binop('+', F.call(name, F.num('2')), F.call(name)))
+        if i % 5 == 0:
+            h.parse('p1', F.call('SUM', F.call(name, F.num('2'), F.num('3')), F.num('1')))
+    h.setfn('p1', 'EXACT2', {'mode': 'arg', 'v': {'t': 'blank'}, 'i': 2}, shape='method2')
+    h.parse('p1', F.call('EXACT2', F.num('4'), F.num('9')))
+    return h.trace()
+
+
 def main(tier, replay=None):
     run = core.Run('C09', tier, keep_replays=bool(replay))
     lib = core.load_library()
@@ -186,6 +254,8 @@ def main(tier, replay=None):
         case = json.load(open(replay))['case']
         if 'resolve_all_documented_names' in case:
             tr = [resolve_trace(lib, names, 1)]
+        elif 'shadow_all_documented_names' in case:
+            tr = [shadow_trace(lib, names, 1)]
         else:
             tr = [replay_case(lib, 1, case)]
         core.validate_hist(run, tr, 'replay', consts, engine='c09')
@@ -207,10 +277,11 @@ def main(tier, replay=None):
         traces.append(replay_case(lib, len(traces) + 1, {'hist': c['hist'], 'probes': pr, 'mid': mid}))
     for i in range(1500 if quick else 30000):
         traces.append(replay_case(lib, len(traces) + 1, random_case(rng, i)))
+    traces.append(shadow_trace(lib, names, len(traces) + 1))
     traces.append(resolve_trace(lib, names, len(traces) + 1))
     CH = 3000
     for k in range(0, len(traces), CH):
         core.validate_hist(run, traces[k:k + CH], 'p%d' % (k // CH), consts, engine='c09')
     run.exhaustive = True
-    run.samples = [{'case': traces[5]['case']}, {'case': traces[-2]['case']}]
+    run.samples = [{'case': traces[5]['case']}, {'case': traces[-3]['case']}]
     return run.finish()
